@@ -508,7 +508,13 @@ def rule_O6_prune_dfs(mod, rep):
                       C.loc, f.name)
     for nm, k in sorted(sites_of.items()):
         if k == 0:
-            rep.brk("ANALYSIS-BROKEN O6: no pruned/unpruned selection site found in %s or its helpers" % nm)
+            fs = [mod.funcs[x] for x, o_ in owner.items() if o_ == nm and x in mod.funcs]
+            reads_xprune = [x for g_ in fs for x in g_.insts() if x.op == "load" and _canon_index(g_, ["v", x.i])[:2] == ("ld", "xprune")]
+            if reads_xprune:
+                rep.fail("O6", "%s#pruned-site" % nm, "%s reads the pruned extent xprune[] at %s but never tests ispruned[]: a DFS that overlaps with pxgstrf_pruneL on the same "
+                         "supernode walks a list that is being permuted" % (nm, reads_xprune[0].loc), reads_xprune[0].loc, nm)
+            else:
+                rep.brk("ANALYSIS-BROKEN O6: no pruned/unpruned selection site found in %s or its helpers" % nm)
     f = mod.funcs.get("pxgstrf_pruneL")
     if f is None:
         rep.brk("ANALYSIS-BROKEN O6: pxgstrf_pruneL not found")
